@@ -25,13 +25,18 @@ import (
 	"fmt"
 	"log"
 	"os"
+	"runtime"
+	"strings"
 	"sync"
 
 	"go.uber.org/zap/zapcore"
 )
 
 const (
-	_stdLogDefaultDepth      = 1
+	// Frames of the log package between the caller of a Print-style function
+	// and the io.Writer: log.Print and (*log.Logger).output.
+	_stdLogDefaultDepth = 2
+	// loggerWriter.Write and the function it calls (see levelToFunc).
 	_loggerWriterDepth       = 2
 	_programmerErrorTemplate = "You've found a bug in zap! Please file a bug at " +
 		"https://github.com/uber-go/zap/issues/new and reference this error: %v"
@@ -77,7 +82,7 @@ func ReplaceGlobals(logger *Logger) func() {
 // functions, use RedirectStdLog instead.
 func NewStdLog(l *Logger) *log.Logger {
 	logger := l.WithOptions(AddCallerSkip(_stdLogDefaultDepth + _loggerWriterDepth))
-	f := logger.Info
+	f, _ := levelToFunc(logger, InfoLevel)
 	return log.New(&loggerWriter{f}, "" /* prefix */, 0 /* flags */)
 }
 
@@ -142,22 +147,39 @@ func redirectStdLogAt(l *Logger, level zapcore.Level) (func(), error) {
 
 func levelToFunc(logger *Logger, lvl zapcore.Level) (func(string, ...Field), error) {
 	switch lvl {
-	case DebugLevel:
-		return logger.Debug, nil
-	case InfoLevel:
-		return logger.Info, nil
-	case WarnLevel:
-		return logger.Warn, nil
-	case ErrorLevel:
-		return logger.Error, nil
-	case DPanicLevel:
-		return logger.DPanic, nil
-	case PanicLevel:
-		return logger.Panic, nil
-	case FatalLevel:
-		return logger.Fatal, nil
+	case DebugLevel, InfoLevel, WarnLevel, ErrorLevel, DPanicLevel, PanicLevel, FatalLevel:
+		return func(msg string, fields ...Field) {
+			l := logger
+			if skip := stdLogCallerSkip(); skip != 0 {
+				l = logger.WithOptions(AddCallerSkip(skip))
+			}
+			l.Log(lvl, msg, fields...)
+		}, nil
 	}
 	return nil, fmt.Errorf("unrecognized level: %q", lvl)
+}
+
+// stdLogCallerSkip reports how many frames more than _stdLogDefaultDepth the
+// log package has put between its caller and loggerWriter.Write. Print, Printf
+// and Println call (*log.Logger).output directly, but Panic*, Fatal* and the
+// package-level Output go through (*log.Logger).Output first, so a fixed
+// depth reports the log package itself as their caller.
+func stdLogCallerSkip() int {
+	// Skip runtime.Callers, this function, the function levelToFunc
+	// returned and loggerWriter.Write.
+	var pcs [16]uintptr
+	n := runtime.Callers(4, pcs[:])
+	frames := runtime.CallersFrames(pcs[:n])
+	depth := 0
+	for more := n > 0; more; {
+		var frame runtime.Frame
+		frame, more = frames.Next()
+		if !strings.HasPrefix(frame.Function, "log.") {
+			break
+		}
+		depth++
+	}
+	return depth - _stdLogDefaultDepth
 }
 
 type loggerWriter struct {
